@@ -91,6 +91,10 @@ class C13(F.Check):
         "unary +, unary - and same-unit % on int8/uint8/int16/uint16 reps do not lower under clang (narrowing "
         "list-initialisation, defect D6): those kernels are dropped by the domain-drop pass and counted, not claimed; "
         "their declared result type Quantity<U,R> also differs from the raw operator's int (recorded, not claimed)",
+        "the integral raw reference kernels are themselves checked against an exact integer oracle (promotion, signed-overflow "
+        "/ division-by-zero / min/-1 traps, modular conversion back to the rep) for + - unary comparisons and compound forms "
+        "on all 8 integral reps, and for * / % on the 8/16-bit reps; 32/64-bit * / % references are not given an oracle "
+        "(au and raw encodings are structurally identical there)",
         "integer `scalar / quantity` is rejected by a static_assert by design (outside the domain; probed and counted)",
         "the framework lowers with -Wno-everything, which would silence clang's default-error narrowing diagnostic; this "
         "module restores clang's default with `#pragma clang diagnostic error \"-Wc++11-narrowing\"` ahead of the Au headers",
@@ -292,8 +296,10 @@ class C13(F.Check):
     def obligations(self, K):
         obs = []
         drops = {}
+        lowered = {}
         unexpected = []
         npairs = 0
+        pt_in_nonident = 0
         for obname, au, rw, args, key, fp, witness, nan_ct in self.pairs:
             if au not in K or rw not in K:
                 continue
@@ -309,7 +315,7 @@ class C13(F.Check):
                     unexpected.append("%s: %s" % (au if da else rw, (da or dr)[:200]))
                 continue
             if exp:
-                self.notes.append("kernel %s was expected not to compile (%s) but lowered; it is checked like the others" % (au, exp))
+                lowered[exp] = lowered.get(exp, 0) + 1
             npairs += 1
             vars_ = [(n, F.ct_sort(t)) for t, n in args]
 
@@ -317,6 +323,24 @@ class C13(F.Check):
                 return T.TRUE, ub_equiv_post(K[au](*vs), K[rw](*vs), nan_ct)
             obs.append(F.Ob(obname, vars_, fn, routes=F.FP_ROUTES if fp else F.CMP_ROUTES, key=key, kernels=[au, rw],
                             note="au operator == raw operator on bare rep: same trap condition, same result bits when no trap"))
+            if key["op"] == "pt_in":
+                # QuantityPoint::in(unit) adds the (zero) origin displacement: identity on integral reps; on floating reps it is
+                # the raw `x + 0`, which is not the identity on bits (-0.0 -> +0.0, signalling NaN quieted): recorded, not claimed
+                ct0 = args[0][0]
+                if not F.ct_is_float(ct0):
+                    def ifn(K, x, au=au):
+                        e = K[au](x)
+                        return T.TRUE, T.and_(T.not_(e.ub), T.eq(e.ret, x))
+                    obs.append(F.Ob("pt_in_ident:" + obname.split(":", 1)[1], vars_, ifn, routes=F.CMP_ROUTES, key=key, kernels=[au],
+                                    note="make_quantity_point<U>(x).in(U{}) == x for integral reps"))
+                else:
+                    def nfn(K, x, au=au, ct0=ct0):
+                        e = K[au](x)
+                        return T.TRUE, T.and_(T.not_(T.fp_isnan(F.FMT_OF[ct0], x)), T.ne(e.ret, x))
+                    obs.append(F.Ob("pt_in_not_bit_identity:" + obname.split(":", 1)[1], vars_, nfn, kind="stretch", expect="sat",
+                                    routes=F.FP_ROUTES, key=key, kernels=[au],
+                                    note="observation (not a claim): some non-NaN x is not returned bit-for-bit by QuantityPoint::in (x = -0.0)"))
+                    pt_in_nonident += 1
             if witness:
                 def wfn(K, au=au, args=args):
                     cs = [T.const_bv(3 - i, F.CTYPES[t][1]) for i, (t, _) in enumerate(args)]
@@ -382,6 +406,13 @@ class C13(F.Check):
         if drops.get("integer_scalar_over_quantity"):
             self.notes.append("%d integer `scalar / quantity` kernels rejected by static_assert (integer division forbidden), by design"
                               % drops["integer_scalar_over_quantity"])
+        for exp, n in sorted(lowered.items()):
+            self.notes.append("%d kernels expected not to compile (%s) did lower on this tree; they are checked like the others" % (n, exp))
+        if lowered:
+            self.extra_cov["expected_out_of_domain_kernels_that_lowered"] = lowered
+        if pt_in_nonident:
+            self.notes.append("observation: for floating reps make_quantity_point<U>(x).in(U{}) computes x + 0 (zero origin displacement), so "
+                              "-0.0 reads back as +0.0 (%d instances have a stretch witness); Quantity::in and data_in are bit-exact" % pt_in_nonident)
         for u in unexpected[:10]:
             self.notes.append("unexpected drop: " + u)
         if unexpected:
